@@ -162,3 +162,15 @@ pub fn vio_read_u64_le<S: VRead>(s: &mut S) -> (r: std::io::Result<u64>)
         r is Err ==> old(s).pos() <= final(s).pos() <= old(s).pos() + smin(8, srem(old(s)) as int),
         srem(old(s)) < 8 ==> r is Err,
 { unimplemented!() }
+
+// X.by_ref().take(N).read(buf)  [rewrite R8] = one read limited to min(N, buf.len()) bytes (Take::read)
+#[verifier::external_body]
+pub fn vio_read_take<S: VRead>(s: &mut S, limit: u64, buf: &mut [u8]) -> (r: std::io::Result<usize>)
+    requires old(s).wf(),
+    ensures final(s).wf(), final(s).data() == old(s).data(), final(buf)@.len() == old(buf)@.len(),
+        r is Ok ==> r->Ok_0 <= old(buf)@.len() && r->Ok_0 <= limit && r->Ok_0 <= srem(old(s))
+            && final(s).pos() == old(s).pos() + r->Ok_0
+            && final(buf)@.subrange(0, r->Ok_0 as int) == old(s).data().subrange(old(s).pos() as int, old(s).pos() + r->Ok_0),
+        (r is Ok && r->Ok_0 == 0) ==> (old(buf)@.len() == 0 || limit == 0 || srem(old(s)) == 0),
+        r is Err ==> final(s).pos() == old(s).pos(),
+{ unimplemented!() }
